@@ -6,6 +6,10 @@ claim("C08", "struct-copy correspondence + path enumeration of the nested-array 
       "For every input: the per-dimension query copy takes each field from the source's same field (WHERE, select list, data, options present), and the []any arm of exec sets copy.from to the inner array, propagates the nested error and appends exactly one nested result. A violated instance breaks C08 for some document; passing does not prove result equality.",
       NOTE, "DESIGN.md 2/C08")
 
+claim("C01", "decision-table extraction over finite abstract domains (sign of Compare, operand truth, operator enum) + per-iteration path counting of the filter loop + term-shape check of the LIKE translation (go/ssa)",
+      "For every input: the row filter appends the loop's own row exactly once iff the WHERE predicate is true and returns predicate errors; each of = != < <= > >= returns the reference truth table of sign(compare.Compare(unwrap(Left), unwrap(Right))); IN/NOT IN use the same equality oracle and are complements on the found/exhausted paths; BETWEEN is (c1>=0 && c2<=0)==IsBetween over unwrapped point/from/to; LIKE quotes the pattern before translating exactly % and _, anchored, same case fold; AND/OR/NOT/IS tables over all IsExprOperator constants. A violated row breaks C01 for some table; passing does not prove result equality.",
+      NOTE, "DESIGN.md 2/C01")
+
 _pending = "rule set for this property is not implemented yet in this round (see DESIGN.md section 2 for the planned structural rules)"
 for p in ["C01","C02","C03","C04","C05","C06","C07","C09","C10","C11","C12","C13","C14","C15","C16","C17","C18","C19","C20"]:
     if p not in CLAIMED:
